@@ -68,7 +68,9 @@ theorem chunk_precise (cfg : Config) (hl : cfg.live = true) (ops : List Op) (j :
   have hp' := hp
   unfold Arch.procChunk Arch.active Job.matchesArch at hp'
   simp only [Bool.and_eq_true, decide_eq_true_eq] at hp'
-  obtain ⟨⟨⟨⟨_, hreq⟩, _⟩, hk⟩, hcm⟩ := hp'
+  obtain ⟨⟨⟨⟨_, hreq⟩, _⟩, hk⟩, hsel⟩ := hp'
+  have hcm : a.cMatch J (i / a.cs) = true := by
+    unfold Arch.sel at hsel; rw [Bool.and_eq_true] at hsel; exact hsel.2
   cases hlast : J.last with
   | none => exact hinv.touchNone j J ai a _ hj ha hreq hk hlast
   | some L =>
@@ -92,6 +94,17 @@ theorem processed_whole_chunks (cfg : Config) (hl : cfg.live = true) (ops : List
     have : a' = a := by rw [ha] at ha'; exact (Option.some.inj ha').symm
     subst this; exact hp
   · intro hp; exact ⟨ai, a, i, ha, hi, hp⟩
+
+/-- **A chunk (or archetype) the job's own filter vetoes is neither processed nor stamped**: the user's
+`extraChunkFilterCheck` / `extraArchetypeFilterCheck` is consulted before `checkAndSet`. -/
+theorem vetoed_chunk_untouched (a : Arch) (J : Job) (cur : Ver) (k : Nat) (c : Comp)
+    (hv : J.chunkOk k = false ∨ J.reqOk a = false) :
+    a.procChunk J k = false ∧ (a.runJob J cur).cst k c = a.cst k c := by
+  have hp : a.procChunk J k = false := by
+    unfold Arch.procChunk Arch.sel Arch.active Job.matchesArch
+    rcases hv with h | h <;> simp [h]
+  refine ⟨hp, ?_⟩
+  rw [runJob_cst, hp]; simp
 
 /-- the blocks handed to the tasks cover exactly the rows of the chunks that passed (`filterArchetype`) -/
 theorem blocks_cover_chunks (cs size : Nat) (hcs : 0 < cs) (hsz : 0 < size) (m : Nat → Bool) (i : Nat) :
@@ -136,6 +149,24 @@ theorem min_without_max_is_accepted (dflt : Nat) (fs : List Size) (h : ∀ s ∈
     resolve dflt fs = .ok (max dflt (maxMin fs)) :=
   Mustache.ChunkSize.resolve_no_max dflt fs ((Mustache.ChunkSize.minMax_spec fs).1.mpr h)
 
+/-- **The configured size applies to the archetype actually created**: a new archetype's mask is the
+requested mask closed under the declared dependencies, and its chunk size is the resolution of the
+functions applied to that CLOSED mask (a function on a component that enters only through a dependency counts). -/
+theorem new_archetype_uses_closed_mask (s s1 : State) (m : List Comp) (aj : Nat)
+    (hnew : findArch s.archs (closeMask s.deps m) = none) (hg : s.getArch m = .ok (s1, aj)) :
+    ∃ a, s1.archs[aj]? = some a ∧ a.mask = closeMask s.deps m ∧
+      Mustache.ChunkSize.resolveFor s.dflt s.fns (closeMask s.deps m) = .ok a.cs := by
+  unfold State.getArch State.getArchClosed at hg
+  generalize closeMask s.deps m = cm at *
+  rw [hnew] at hg
+  cases hr : Mustache.ChunkSize.resolveFor s.dflt s.fns cm with
+  | error mx mn => rw [hr] at hg; cases hg
+  | ok cs =>
+    rw [hr] at hg
+    simp only [Except.ok.injEq, Prod.mk.injEq] at hg
+    obtain ⟨rfl, rfl⟩ := hg
+    exact ⟨_, List.getElem?_concat_length, rfl, rfl⟩
+
 /-- `maxMin` is the largest minimum; `minMax` the smallest non-zero maximum (0 iff there is none). -/
 theorem chunk_size_bounds_meaning (fs : List Size) :
     ((∀ s ∈ fs, s.min ≤ maxMin fs) ∧ (maxMin fs = 0 ∨ ∃ s ∈ fs, s.min = maxMin fs)) ∧
@@ -160,7 +191,8 @@ theorem check_outside_archetype_not_quiescent :
     ∃ (cfg : Config) (ops : List Op) (j : Nat) (sp : JobSpec),
       cfg.live = true ∧ cfg.jobs[j]? = some sp ∧ sp.check ≠ [] ∧ ¬ VersionFiltered sp ∧
       ((((run cfg ops).jobRun j).1).jobRun j).2 ≠ [] := by
-  refine ⟨{ jobs := [⟨[0], [1], []⟩] }, [.create [0]], 0, ⟨[0], [1], []⟩, rfl, rfl, by simp, ?_, by decide⟩
+  refine ⟨{ jobs := [{ req := [0], check := [1], upd := [] }] }, [.create [0]], 0,
+    { req := [0], check := [1], upd := [] }, rfl, rfl, by simp, ?_, by decide⟩
   rintro ⟨_, h⟩
   have := h 1 (by simp)
   simp at this
@@ -168,9 +200,9 @@ theorem check_outside_archetype_not_quiescent :
 /-! ### non-vacuity -/
 
 /-- job 0 requires, checks *and writes* component 0 (update mask ⊇ check mask); job 1 reads 0, writes 1 -/
-def cfgEx : Config := { jobs := [⟨[0], [0], [0]⟩, ⟨[0, 1], [], [1]⟩] }
+def cfgEx : Config := { jobs := [{ req := [0], check := [0], upd := [0] }, { req := [0, 1], check := [], upd := [1] }] }
 
-example : VersionFiltered ⟨[0], [0], [0]⟩ := ⟨by simp, by simp⟩
+example : VersionFiltered { req := [0], check := [0], upd := [0] } := ⟨by simp, by simp⟩
 
 /-- quiescent: the first run has work (3 entities), then update / const access / a run of job 1 (writes
 component 1 only) / mutable access to the unchecked component 1: the hypotheses of `quiescent` hold and the
@@ -192,6 +224,18 @@ example :
     let s := run cfgEx [.setDefault 2, .create [0], .create [0], .create [0], .create [0], .create [0],
                         .run 0, .update, .destroyNow 0]
     (s.jobRun 0).2 = [4, 1] ∧ s.touched 0 0 0 = true ∧ s.touched 0 0 1 = false := by decide
+
+/-- dependency A → B, chunk-size function on B only: `create A` makes the archetype {A,B} with chunk size 3 -/
+example : (run cfgEx [.addDep 0 [1], .addFn [1] 3 3, .create [0]]).archs.map (fun a => (a.mask, a.cs)) =
+    [([0, 1], 3)] := by decide
+
+/-- a writing job with a chunk filter (odd chunks vetoed) leaves the vetoed chunk unstamped: the checking job
+(index 1) then finds only chunk 0 changed -/
+example :
+    let cfg : Config := { jobs := [{ req := [0], check := [], upd := [0], cfSkip := some 1 },
+                                   { req := [0], check := [0], upd := [] }] }
+    let s := run cfg [.setDefault 1, .create [0], .create [0], .run 1, .update, .run 0]
+    (s.jobRun 1).2 = [0] := by decide
 
 example : resolve 1024 [⟨0, 0⟩, ⟨16, 16⟩] = .ok 16 := by decide
 example : resolve 5 [⟨2, 9⟩, ⟨3, 7⟩, ⟨0, 0⟩] = .ok 5 ∧ resolve 1 [⟨2, 9⟩, ⟨3, 7⟩] = .ok 3 ∧
